@@ -286,9 +286,11 @@ def oConstructDim (dim method : Nat) (allowNull : Bool) : Except Err (OSt α) :=
 /-- `OrderedSimplex::setFrequencies` :296-310 (after the repair: `vValues_` is assigned once the
 base class has accepted the vector; before, it was assigned first and survived a rejection).
 `changed` in the base class means `OrderedSimplex::fireParameterChanged` ran and recomputed
-`vValues_`, which the final assignment then overwrites with the argument. -/
+`vValues_`, which the final assignment then overwrites with the argument.  Second repair: the
+empty vector returns at once (before, `dim - 1` wrapped around and `vValues[0]` was read). -/
 def oSetFrequencies (s : OSt α) (v : List α) : Except Err (OSt α) :=
-  if v.length = 0 ∨ v.length ≠ s.base.dim then .error .ub
+  if v.length = 0 then .ok s                       -- `if (dim == 0) return;` (second repair)
+  else if v.length ≠ s.base.dim then .error .ub
   else do
     let b ← setFrequencies s.base (orderedToProbs v 1)
     .ok ⟨b, v⟩
